@@ -20,8 +20,16 @@ def Hdr.add (h : Hdr) (k v : String) : Hdr :=
   | some (_, vs) => (h.filter (fun p => p.1 != k)) ++ [(k, vs ++ [v])]
   | none => h ++ [(k, [v])]
 
+/-- net/http `bodyAllowedForStatus` (same switch): 1xx, 204 and 304 carry no body. -/
+def bodyAllowed (c : Nat) : Bool :=
+  if 100 ≤ c ∧ c ≤ 199 then false
+  else if c = 204 then false
+  else if c = 304 then false
+  else true
+
 /-- the underlying `net/http.ResponseWriter` as the client/connection sees it. -/
 structure Wire where
+  enforce : Bool := false       -- a real connection (rejects body bytes the committed status forbids); false = recorder
   commits : Nat := 0            -- calls of the underlying WriteHeader
   committed : Bool := false     -- has the header block gone out
   status : Nat := 200           -- status the client receives
@@ -58,10 +66,13 @@ def Wire.writeHeader (w : Wire) (c : Nat) (h : Hdr) : Wire :=
   if w.committed then { w with commits := w.commits + 1 }
   else { w with commits := w.commits + 1, committed := true, status := c, hdrAtCommit := h }
 
-/-- underlying `ResponseWriter.Write`: implicit 200 commit if nothing was committed. -/
+/-- underlying `ResponseWriter.Write`: implicit 200 commit if nothing was committed; a
+    connection then answers `ErrBodyNotAllowed` (nothing is written) when the committed status
+    forbids a body. The error is swallowed by `bufferedWriter.Write` and ignored by `Redirect`,
+    so it leaves no trace in the state. -/
 def Wire.write (w : Wire) (b : String) (h : Hdr) : Wire :=
   let w := if w.committed then w else { w with committed := true, status := 200, hdrAtCommit := h }
-  { w with body := w.body ++ [b] }
+  if w.enforce && !bodyAllowed w.status then w else { w with body := w.body ++ [b] }
 
 /-- `bufferedWriter.WriteHeader` -/
 def St.writeHeader (s : St) (c : Nat) : St :=
@@ -102,7 +113,14 @@ def step (s : St) : Op → St
 /-- `commitPending`, deferred by the handler wrapper. -/
 def St.finish (s : St) : St := if !s.headerSent && s.statusSet then s.writeHeader s.status else s
 
-def run (ops : List Op) : St := (ops.foldl step {}).finish
+/-- a handler run on a recorder (`e = false`) or on a real connection (`e = true`). -/
+def runOn (e : Bool) (ops : List Op) : St := (ops.foldl step { wire := { enforce := e } }).finish
+
+/-- on a recorder (`httptest.ResponseRecorder`): every write is kept. -/
+def run (ops : List Op) : St := runOn false ops
+
+/-- over a real connection: what an HTTP client receives. -/
+def runConn (ops : List Op) : St := runOn true ops
 
 /-- What the client observes. If nothing committed, net/http commits 200 with
     the final header map when the handler returns. -/
